@@ -34,7 +34,7 @@ CLAIMED = {
          "versions whose mtime is indistinguishable from the current one (equal or zero) are exempt as the cache documents; single goroutine; MapFS trusted.",
          "differential history monitor (long-lived vs fresh engine) with cache hit/miss hooks", "4/C15"),
  "C18": ("exploration",
-         "The real OverlayFS is run against every stack of up to 3 layers (nil or one of 48 MapFS states over a 6-path universe) and every ReadFile/Stat/ReadDir/Glob query over that universe; each answer is compared online with a 40-line reference union model. Exhaustive inside that bound, nothing beyond it.",
+         "The real OverlayFS is run against every stack of up to 3 (thorough: 4) layers (nil or one of 48 MapFS states over a 6-path universe) and every ReadFile/Stat/ReadDir/Glob query over that universe; each answer is compared online with a 40-line reference union model. Exhaustive inside that bound, nothing beyond it.",
          "testing/fstest.MapFS and io/fs helpers are trusted; paths deeper than two components, symlinks and layers that fail with errors other than not-exist are not explored.",
          "reference-model monitor over an exhaustively enumerated bounded configuration space (runtime differential check)", "4/C18"),
 }
